@@ -34,6 +34,7 @@ type recorder struct {
 	log        []Event
 	writeFail  int // fail the k-th write (1-based); 0 = never
 	loadFail   int
+	readFail   int // the contents of the k-th loaded template cannot be read to the end
 	writes     int
 	loads      int
 	failedAt   int // index into log of the failed write, -1
@@ -69,12 +70,28 @@ type memTemplate struct {
 func (t *memTemplate) Name() string        { return t.name }
 func (t *memTemplate) Contents() io.Reader { return strings.NewReader(string(t.src)) }
 
+// failTemplate: a template whose contents cannot be read to the end (a loader over a medium that fails mid-way)
+type failTemplate struct {
+	name string
+	src  []byte
+}
+type errReader struct{}
+
+func (errReader) Read([]byte) (int, error) { return 0, errInjected }
+func (t *failTemplate) Name() string       { return t.name }
+func (t *failTemplate) Contents() io.Reader {
+	return io.MultiReader(strings.NewReader(string(t.src[:len(t.src)/2])), errReader{})
+}
+
 func (r *recorder) Load(name string) (stick.Template, error) {
 	r.loads++
 	nb := Bytes(name)
 	src, found := r.srcs[name]
-	ok := found && !(r.loadFail > 0 && r.loads == r.loadFail)
+	ok := found && !(r.loadFail > 0 && r.loads == r.loadFail) && !(r.readFail > 0 && r.loads == r.readFail)
 	r.log = append(r.log, Event{E: "load", Name: &nb, OK: &ok})
+	if found && r.readFail > 0 && r.loads == r.readFail {
+		return &failTemplate{name, src}, nil
+	}
 	if r.loadFail > 0 && r.loads == r.loadFail {
 		return nil, errInjected
 	}
